@@ -37,7 +37,7 @@ for p in $list; do
   fi
   rm -rf "$ROOT/replays"; mkdir -p "$ROOT/replays"
   t0=$(date +%s)
-  VERIF_REPO="$ROOT/repo" VERIF_DRIVE_ARGS="-no-evidence -replay-dir $ROOT/replays" "$HERE/check" "$prop" "$TIER" >"$ROOT/out.log" 2>&1
+  VERIF_REPO="$ROOT/repo" VERIF_DRIVE_ARGS="-first -no-evidence -replay-dir $ROOT/replays ${MUTANT_DRIVE_ARGS:-}" "$HERE/check" "$prop" "$TIER" >"$ROOT/out.log" 2>&1
   code=$?
   t1=$(date +%s)
   rp=$(grep -m1 '^VIOLATION property=' "$ROOT/out.log" | sed 's/.*replay=//')
